@@ -16,8 +16,8 @@
 extern int hx_rank_count;
 extern void *(*hx_rank_mains[])(void *);
 
-enum { OP_NEW, OP_ADD, OP_START, OP_CTXWAIT, OP_TPWAIT, OP_COMPOSE, OP_TEST, OP_FREE, OP_N };
-static const char *const opnames[] = {"new", "add", "start", "ctxwait", "tpwait", "compose", "test", "free"};
+enum { OP_NEW, OP_ADD, OP_START, OP_CTXWAIT, OP_TPWAIT, OP_COMPOSE, OP_TEST, OP_FREE, OP_CHAIN, OP_N };
+static const char *const opnames[] = {"new", "add", "start", "ctxwait", "tpwait", "compose", "test", "free", "chain"};
 enum { PR_AGAIN, PR_REMOTE, PR_MULTIRANK, PR_STARTUP_CHUNK1, PR_INDEXARRAY, PR_OVERLAP2, PR_N };
 static const char *const probe_names[] = {"body_returned_AGAIN", "task_ran_on_nonzero_rank", "multi_rank_run", "startup_chunk_is_1", "index_array_deps",
                                           "two_tasks_overlapped"};
@@ -161,6 +161,7 @@ static int RUNNING;
 static uint64_t cb_stamp[PTG_MAX_TP]; static int cb_count[PTG_MAX_TP];
 static uint64_t act_begin[16][128], act_end[16][128];
 static int tp_slot_is_ptg[PTG_MAX_TP];
+static int tp_epoch[PTG_MAX_TP], tp_member_of[PTG_MAX_TP], epoch_wait_action[16], NEPOCH;
 
 static int want(int p) { return PROP == p; }
 
@@ -259,28 +260,38 @@ static void plan_to_shared(const hx_plan_t *p)
     if (SH.nelems > PTG_MAX_ELEMS) SH.nelems = PTG_MAX_ELEMS;
     for (int g = 0; g < 4; g++) { SH.G[g] = (int)gval(p, g); if (SH.G[g] < 1) SH.G[g] = 1; }
     /* token discipline for API histories: only legal call orders are kept */
-    int exists[PTG_MAX_TP] = {0}, added[PTG_MAX_TP] = {0}, composed[PTG_MAX_TP] = {0};
+    int exists[PTG_MAX_TP] = {0}, added[PTG_MAX_TP] = {0}, composed[PTG_MAX_TP] = {0}, chained_from[PTG_MAX_TP] = {0}, by_callback[PTG_MAX_TP] = {0};
     int started = 0, n = 0;
     NTP = 0;
     memset(tp_slot_is_ptg, 0, sizeof(tp_slot_is_ptg));
+    memset(tp_epoch, -1, sizeof(tp_epoch));
+    memset(tp_member_of, -1, sizeof(tp_member_of));
+    memset(epoch_wait_action, -1, sizeof(epoch_wait_action));
+    NEPOCH = 0;
     for (int i = 0; i < p->nops && n < 120; i++) {
         const hx_op_t *o = &p->ops[i];
         int a = (int)(o->a % PTG_MAX_TP);
         ptg_action_t act = {0, a, (int)o->b, (int)o->c};
         switch (o->op) {
         case OP_NEW: if (exists[a]) continue; exists[a] = 1; tp_slot_is_ptg[a] = 1; NTP++; act.kind = PA_NEW; break;
-        case OP_ADD: if (!exists[a] || added[a] || composed[a]) continue; added[a] = 1; act.kind = PA_ADD; break;
+        case OP_ADD: if (!exists[a] || added[a] || composed[a]) continue; added[a] = 1; tp_epoch[a] = NEPOCH; act.kind = PA_ADD; break;
+        case OP_CHAIN: {
+            int b = (int)(o->b % PTG_MAX_TP);
+            if (!exists[a] || !exists[b] || a == b || added[a] == 0 || added[b] || composed[b] || chained_from[a] || !tp_slot_is_ptg[a] || !tp_slot_is_ptg[b] || started) continue;
+            added[b] = 1; by_callback[b] = 1; chained_from[a] = 1; tp_epoch[b] = NEPOCH; act.kind = PA_CHAIN; act.b = b;
+            break;
+        }
         case OP_START: if (started) continue; started = 1; act.kind = PA_START; break;
-        case OP_CTXWAIT: if (!started) continue; started = 0; act.kind = PA_CTXWAIT; break;
+        case OP_CTXWAIT: if (!started) continue; started = 0; act.kind = PA_CTXWAIT; if (NEPOCH < 16) epoch_wait_action[NEPOCH] = n; NEPOCH++; break;
         case OP_TEST: if (!started) continue; act.kind = PA_TEST; break;
-        case OP_TPWAIT: if (!exists[a] || !added[a] || !started) continue; act.kind = PA_TPWAIT; break;
+        case OP_TPWAIT: if (!exists[a] || !added[a] || !started || by_callback[a]) continue;   /* "the taskpool must be ready and registered with a started context": one that a callback will add later is not */ act.kind = PA_TPWAIT; break;
         case OP_COMPOSE: {
             int b = (int)(o->b % PTG_MAX_TP), c = (int)o->c;
             if (c < 1 || b + c > PTG_MAX_TP || exists[a]) continue;
             int ok = 1;
             for (int k = 0; k < c; k++) if (!exists[b + k] || added[b + k] || composed[b + k] || !tp_slot_is_ptg[b + k]) ok = 0;
             if (!ok) continue;
-            for (int k = 0; k < c; k++) composed[b + k] = 1;
+            for (int k = 0; k < c; k++) { composed[b + k] = 1; tp_member_of[b + k] = a; }
             exists[a] = 1; act.kind = PA_COMPOSE; act.b = b; act.c = c;
             break;
         }
@@ -291,9 +302,17 @@ static void plan_to_shared(const hx_plan_t *p)
     }
     /* close the history: everything that exists gets added (unless part of a compound), the context is
      * started and waited, then everything is freed */
-    for (int a = 0; a < PTG_MAX_TP; a++) if (exists[a] && !added[a] && !composed[a]) { SH.actions[n++] = (ptg_action_t){PA_ADD, a, 0, 0}; added[a] = 1; started = started; }
-    if (!started) SH.actions[n++] = (ptg_action_t){PA_START, 0, 0, 0};
-    SH.actions[n++] = (ptg_action_t){PA_CTXWAIT, 0, 0, 0};
+    int pending = started;
+    for (int a = 0; a < PTG_MAX_TP; a++) if (exists[a] && added[a] && tp_epoch[a] >= NEPOCH) pending = 1;   /* added but not waited yet */
+    for (int a = 0; a < PTG_MAX_TP; a++) if (exists[a] && !added[a] && !composed[a]) { SH.actions[n++] = (ptg_action_t){PA_ADD, a, 0, 0}; added[a] = 1; tp_epoch[a] = NEPOCH; pending = 1; }
+    if (pending) {
+        if (!started) SH.actions[n++] = (ptg_action_t){PA_START, 0, 0, 0};
+        if (NEPOCH < 16) epoch_wait_action[NEPOCH] = n;
+        NEPOCH++;
+        SH.actions[n++] = (ptg_action_t){PA_CTXWAIT, 0, 0, 0};
+    }
+    /* members of a compound belong to the epoch of the compound */
+    for (int a = 0; a < PTG_MAX_TP; a++) if (tp_member_of[a] >= 0) tp_epoch[a] = tp_epoch[tp_member_of[a]];
     for (int a = 0; a < PTG_MAX_TP; a++) if (exists[a]) SH.actions[n++] = (ptg_action_t){PA_FREE, a, 0, 0};
     SH.nactions = n;
 }
@@ -332,8 +351,34 @@ static void gen(hx_plan_t *p, hx_rng_t *r)
     hx_set_knob(p, "short_limit", hx_chance(r, 50) ? -1 : 0);
     hx_set_knob(p, "aggregate", hx_chance(r, 30) ? 0 : -1);
     hx_set_knob(p, "thread_multiple", hx_chance(r, 25) ? 1 : -1);
-    /* default single-taskpool history; API histories are generated by the C06/C15 configurations */
-    hx_add_op(p, 0, OP_NEW, 0, 0, 0);
+    /* histories: `--knob hist=` selects the family (0 single taskpool, 15 composition, 6 API history) */
+    long hist = hx_cli_knob("hist", 0);
+    if (hist == 15) {
+        int k = hx_chance(r, 60) ? (int)hx_range(r, 1, 6) : (int)hx_range(r, 7, 20);
+        for (int i = 0; i < k; i++) hx_add_op(p, 0, OP_NEW, i, 0, 0);
+        hx_add_op(p, 0, OP_COMPOSE, k, 0, k);
+        hx_add_op(p, 0, OP_ADD, k, 0, 0);
+        if (hx_chance(r, 30)) { hx_add_op(p, 0, OP_NEW, k + 1, 0, 0); hx_add_op(p, 0, OP_ADD, k + 1, 0, 0); }   /* an independent taskpool alongside */
+        hx_add_op(p, 0, OP_START, 0, 0, 0);
+        hx_add_op(p, 0, OP_CTXWAIT, 0, 0, 0);
+    } else if (hist == 6) {
+        int slot = 0, epochs = (int)hx_range(r, 1, 4);
+        for (int e = 0; e < epochs && slot < PTG_MAX_TP - 4; e++) {
+            int n = (int)hx_range(r, 1, 3), first = slot;
+            for (int i = 0; i < n; i++) hx_add_op(p, 0, OP_NEW, slot++, 0, 0);
+            int pre = (int)hx_below(r, n + 1);              /* how many are added before start */
+            int chained = n >= 2 && hx_chance(r, 35);       /* last one is added by the completion callback of the first */
+            for (int i = 0; i < pre; i++) if (!(chained && i == n - 1)) hx_add_op(p, 0, OP_ADD, first + i, 0, 0);
+            if (chained) hx_add_op(p, 0, OP_CHAIN, first, first + n - 1, 0);
+            hx_add_op(p, 0, OP_START, 0, 0, 0);
+            for (int i = pre; i < n; i++) if (!(chained && i == n - 1)) { if (hx_chance(r, 30)) hx_add_op(p, 0, OP_TEST, 0, 0, 0); hx_add_op(p, 0, OP_ADD, first + i, 0, 0); }
+            if (hx_chance(r, 40)) hx_add_op(p, 0, OP_TPWAIT, first + hx_below(r, n), 0, 0);
+            if (hx_chance(r, 30)) hx_add_op(p, 0, OP_TEST, 0, 0, 0);
+            hx_add_op(p, 0, OP_CTXWAIT, 0, 0, 0);
+        }
+    } else {
+        hx_add_op(p, 0, OP_NEW, 0, 0, 0);
+    }
 }
 
 static void setenv_int(const char *k, long v) { char b[32]; snprintf(b, sizeof(b), "%ld", v); setenv(k, b, 1); }
@@ -372,6 +417,10 @@ static void run(const hx_plan_t *p, hx_result_t *res)
     plan_to_shared(p);
     build_reference();
     if (INVALID) { fprintf(stderr, "[ptg] INVALID PROGRAM %s: %s\n", PTG_REF.name, INVALID); fflush(stderr); _exit(2); }
+    if (getenv("VERIF_DUMP_SHARED")) {   /* for tools/realrun: run the same plan on the real runtime */
+        FILE *f = fopen(getenv("VERIF_DUMP_SHARED"), "wb");
+        if (f) { fwrite(&SH, sizeof(SH), 1, f); fclose(f); }
+    }
     memset(OBS, 0, sizeof(OBS));
     memset(cb_count, 0, sizeof(cb_count));
     memset(cb_stamp, 0, sizeof(cb_stamp));
@@ -438,6 +487,40 @@ static void run(const hx_plan_t *p, hx_result_t *res)
             for (int j = 0; j < SH.nelems; j++) if (SH.final_[t][j] != v + j) {
                 hx_fail(res, "wrong-final", "A(%d) element %d is %lld at the end; %s writes back %lld", t, j, (long long)SH.final_[t][j], inst_name(wb_inst[t], nm, sizeof(nm)), (long long)(v + j));
                 break;
+            }
+        }
+    }
+    if ((want(15) || want(6)) && !res->vclass) {
+        uint64_t tmin[PTG_MAX_TP], tmax[PTG_MAX_TP];
+        for (int t = 0; t < PTG_MAX_TP; t++) { tmin[t] = UINT64_MAX; tmax[t] = 0; if (tp_slot_is_ptg[t]) for (int i = 0; i < NINST; i++) { if (OBS[t][i].begin < tmin[t]) tmin[t] = OBS[t][i].begin; if (OBS[t][i].end > tmax[t]) tmax[t] = OBS[t][i].end; } }
+        for (int ai = 0; ai < SH.nactions && !res->vclass; ai++) {
+            ptg_action_t *a = &SH.actions[ai];
+            if (a->kind == PA_COMPOSE && want(15)) {
+                /* C15: members run strictly one after another; the compound's callback fires once, after the last */
+                for (int k = 0; k + 1 < a->c && !res->vclass; k++)
+                    if (NINST && !(tmax[a->b + k] < tmin[a->b + k + 1]))
+                        hx_fail(res, "composed-overlap", "composed taskpool %d began (first task at stamp %llu) before its predecessor %d finished (last task ended at %llu)", a->b + k + 1,
+                                (unsigned long long)tmin[a->b + k + 1], a->b + k, (unsigned long long)tmax[a->b + k]);
+                int cbslot = a->a;      /* the callback is registered under the slot that gets added */
+                if (!res->vclass && cb_count[cbslot] != 1) hx_fail(res, "callback-count", "completion callback of the compound %d ran %d times", a->a, cb_count[cbslot]);
+                else if (!res->vclass && NINST && cb_stamp[cbslot] < tmax[a->b + a->c - 1]) hx_fail(res, "callback-early", "completion callback of the compound %d ran before the last task of its last member ended", a->a);
+            }
+            if (a->kind == PA_TPWAIT && want(6) && tp_slot_is_ptg[a->a]) {
+                if (NINST && !(tmax[a->a] < act_end[0][ai]))
+                    hx_fail(res, "wait-returned-early", "parsec_taskpool_wait(%d) returned at stamp %llu but a task of it ended at %llu", a->a, (unsigned long long)act_end[0][ai], (unsigned long long)tmax[a->a]);
+            }
+        }
+        for (int e = 0; e < NEPOCH && e < 16 && want(6) && !res->vclass; e++) {
+            int ai = epoch_wait_action[e];
+            if (ai < 0) continue;
+            for (int t = 0; t < PTG_MAX_TP && !res->vclass; t++) {
+                if (!tp_slot_is_ptg[t] || tp_epoch[t] != e) continue;
+                if (NINST && !(tmax[t] < act_end[0][ai]))
+                    hx_fail(res, "wait-returned-early", "parsec_context_wait of epoch %d returned at stamp %llu but taskpool %d had a task ending at %llu", e, (unsigned long long)act_end[0][ai], t, (unsigned long long)tmax[t]);
+                else if (NINST && tmin[t] < act_begin[0][0]) hx_fail(res, "garbage-task", "taskpool %d ran before the program started", t);
+                else if (tp_member_of[t] < 0 && cb_count[t] != 1) hx_fail(res, "callback-count", "completion callback of taskpool %d (epoch %d) ran %d times", t, e, cb_count[t]);
+                else if (tp_member_of[t] < 0 && NINST && !(cb_stamp[t] > tmax[t])) hx_fail(res, "callback-early", "completion callback of taskpool %d ran before its last task ended", t);
+                else if (tp_member_of[t] < 0 && !(cb_stamp[t] < act_end[0][ai])) hx_fail(res, "wait-returned-early", "parsec_context_wait of epoch %d returned before the completion callback of taskpool %d ran", e, t);
             }
         }
     }
